@@ -1,6 +1,7 @@
 import OpusProofs.CtlSurround
 import OpusProofs.CtlMsEncode
 import OpusProofs.CtlRanges
+import OpusProofs.SilkBw
 import OpusProofs.EncDecideHonour
 import OpusModel.Gen.CtlConsts
 /-
@@ -416,6 +417,110 @@ theorem honour_bandwidth (s : DSt) (hs : DInv s) (o : Oracle) (ho : OracleOk o) 
   refine ⟨stepNormal_bw_le hs ho b hf hsilk, ?_, ?_, ?_⟩ <;>
     (unfold bwLimit; consts; intros; grind)
 
+/-! ### SILK's internal rate (the oracle behind the TOC bandwidth of SILK-only packets)
+
+  `Opus.SilkBw.controlBw` transcribes `silk_control_audio_bandwidth`; `runBw` runs it over a history
+  of one channel: between two calls any number of coded frames (the transition filter advances), a
+  prefill reset (with or without the variable-LP state) or a re-initialisation; per call ANY
+  `allow_bandwidth_switch` / `opusCanSwitch` — these come from signal-dependent code. -/
+
+/-- **silk_rate_inv.**  Over every such history, with inputs that pass `check_control_input`: every
+    call returns 8, 12 or 16 kHz; the returned rate is within that call's [minInternalSampleRate,
+    maxInternalSampleRate] IMMEDIATELY (also on the first call after the maximum was lowered) and not
+    above the API rate; and if every call asked for at most `D` (min = 8 kHz, or max ≤ D as in hybrid)
+    every returned rate is at most `D` — the desired rate itself is followed with a delay (next two
+    theorems), an upper bound on all requests is never exceeded. -/
+theorem silk_rate_inv :
+    (∀ (s : SilkBw.BwSt) (i : SilkBw.BwIn), SilkBw.BwInv s → SilkBw.BwInOk i → i.minFs ≤ i.apiFs →
+        ((SilkBw.controlBw s i).fsKHz = 8 ∨ (SilkBw.controlBw s i).fsKHz = 12 ∨ (SilkBw.controlBw s i).fsKHz = 16) ∧
+        SilkBw.BwInv (SilkBw.afterCall (SilkBw.controlBw s i)) ∧
+        (SilkBw.controlBw s i).fsKHz * 1000 ≤ i.maxFs ∧ i.minFs ≤ (SilkBw.controlBw s i).fsKHz * 1000 ∧
+        (i.desired ≤ i.apiFs → (SilkBw.controlBw s i).fsKHz * 1000 ≤ i.apiFs)) ∧
+    (∀ (D : Int), 0 ≤ D → ∀ (evs : List (SilkBw.Gap × SilkBw.BwIn)) (s : SilkBw.BwSt), SilkBw.BwInv s →
+        s.fsKHz * 1000 ≤ D ∧ s.savedFsKHz * 1000 ≤ D →
+        (∀ e ∈ evs, SilkBw.BwInOk e.2 ∧ e.2.minFs ≤ e.2.apiFs ∧ e.2.desired ≤ D ∧ (e.2.minFs = 8000 ∨ e.2.maxFs ≤ D)) →
+        SilkBw.BwInv (SilkBw.runBw s evs).1 ∧
+        (∀ k ∈ (SilkBw.runBw s evs).2, (k = 8 ∨ k = 12 ∨ k = 16) ∧ k * 1000 ≤ D) ∧
+        (SilkBw.runBw s evs).2.length = evs.length) :=
+  ⟨fun s i hs hi hmin => ⟨(SilkBw.controlBw_inv hs hi).1, (SilkBw.controlBw_inv hs hi).2, SilkBw.controlBw_range hs hi hmin⟩,
+   fun D hD evs s hs h0 hall => by
+     obtain ⟨a, _, c, d⟩ := SilkBw.runBw_spec D hD evs s hs h0 hall
+     exact ⟨a, c, d⟩⟩
+
+/-- **silk_rate_constant.**  With the same request on every call (and desired ≤ API rate, as Opus
+    guarantees by its Nyquist clamp) the rate IS the desired one from the first call after
+    initialisation on, and stays: nothing to switch. -/
+theorem silk_rate_constant (s : SilkBw.BwSt) (i : SilkBw.BwIn) (hs : SilkBw.BwInv s) (hi : SilkBw.BwInOk i)
+    (hapi : i.desired ≤ i.apiFs) (h : (s.fsKHz = 0 ∧ s.savedFsKHz = 0) ∨ s.fsKHz * 1000 = i.desired) :
+    (SilkBw.controlBw s i).fsKHz * 1000 = i.desired :=
+  SilkBw.controlBw_const hs hi hapi h
+
+/-- **silk_rate_down_switch.**  A LOWER request is not followed at once.  While a switch is allowed
+    (`allow_bandwidth_switch`) the call keeps the rate and runs the transition filter down: mode −2,
+    whose counter — at most 256 — loses 2 per coded frame, so after at most 128 coded frames a call
+    reports `switchReady`; once Opus hands that back as `opusCanSwitch` the rate drops one step
+    (16 → 12 → 8 kHz) in that very call.  While `allow_bandwidth_switch` is false (speech activity
+    high, a DSP decision) nothing moves: that is the residual of the "settings constant since the first
+    frame" restriction. -/
+theorem silk_rate_down_switch (s : SilkBw.BwSt) (i : SilkBw.BwIn) (hs : SilkBw.BwInv s) (hi : SilkBw.BwInOk i)
+    (hfs : s.fsKHz ≠ 0)
+    (hin : s.fsKHz * 1000 ≤ i.apiFs ∧ s.fsKHz * 1000 ≤ i.maxFs ∧ i.minFs ≤ s.fsKHz * 1000)
+    (hdown : i.desired < s.fsKHz * 1000) :
+    (i.allow = true → i.can = false →
+      (SilkBw.controlBw s i).fsKHz = s.fsKHz ∧
+      (((SilkBw.controlBw s i).st.mode = -2 ∧ (SilkBw.controlBw s i).ready = false ∧ 0 < (SilkBw.controlBw s i).st.tfn) ∨
+       ((SilkBw.controlBw s i).ready = true ∧ (SilkBw.controlBw s i).st.tfn ≤ 0))) ∧
+    (∀ (n : Nat) (t : SilkBw.BwSt), t.mode = -2 → 0 ≤ t.tfn ∧ t.tfn ≤ 256 →
+      (SilkBw.lpSteps n t).tfn = max 0 (t.tfn - 2 * n) ∧ (SilkBw.lpSteps n t).mode = -2) ∧
+    (i.can = true →
+      (SilkBw.controlBw s i).fsKHz = (if s.fsKHz = 16 then 12 else 8) ∧ (SilkBw.controlBw s i).st.mode = 0 ∧
+      (SilkBw.controlBw s i).fsKHz < s.fsKHz) :=
+  ⟨fun ha hc => ⟨(SilkBw.down_progress hs hi hfs hin hdown ha hc).1, (SilkBw.down_progress hs hi hfs hin hdown ha hc).2.1⟩,
+   fun n t hm ht => SilkBw.lpSteps_down n t hm ht,
+   fun hc => SilkBw.down_switch hs hi hfs hin hdown hc⟩
+
+/-- **honour_bandwidth_silk** — `honour_bandwidth` for SILK-only packets WITHOUT the oracle contract.
+    Take any history of one SILK channel since `silk_InitEncoder` in which every SILK / hybrid frame was
+    coded with a chain bandwidth `bw ≤ L`, `bw ≤ Nyquist(Fs)` (under settings constant since the first
+    frame that is what `honour_bandwidth` proves of EVERY frame's chain bandwidth, with
+    `L = bwLimit s 1000`), Opus handing SILK the control inputs of opus_encoder.c:2013-2045
+    (`opusSilkIn`), with any switch permissions and any gaps.  Then the rate `k` of every call — hence
+    the TOC bandwidth `bwOfKHz k` a SILK-only packet signals — is at most `L`; and plugged into the
+    encoder step as `o.silkBandwidth`, the packet's TOC bandwidth is within `bwLimit`. -/
+theorem honour_bandwidth_silk (apiFs L : Int)
+    (hapi : apiFs = 8000 ∨ apiFs = 12000 ∨ apiFs = 16000 ∨ apiFs = 24000 ∨ apiFs = 48000) (hL : 1101 ≤ L)
+    (calls : List (SilkBw.Gap × (Int × Int × Int × Int × Bool × Bool)))
+    (hcalls : ∀ c ∈ calls, (c.2.1 = 1000 ∨ (c.2.1 = 1001 ∧ 1104 ≤ c.2.2.1 ∧ 24000 ≤ apiFs)) ∧
+        (1101 ≤ c.2.2.1 ∧ c.2.2.1 ≤ L) ∧ c.2.2.1 ≤ nyquistBw apiFs) :
+    let evs := calls.map fun c => (c.1, SilkBw.opusSilkIn apiFs c.2.1 c.2.2.1 c.2.2.2.1 c.2.2.2.2.1 c.2.2.2.2.2.1 c.2.2.2.2.2.2)
+    (∀ k ∈ (SilkBw.runBw SilkBw.bwInit evs).2, (k = 8 ∨ k = 12 ∨ k = 16) ∧ SilkBw.bwOfKHz k ≤ L ∧
+        1101 ≤ SilkBw.bwOfKHz k ∧ SilkBw.bwOfKHz k ≤ 1103) ∧
+    (∀ (s : DSt) (hs : DInv s) (o : Oracle) (ho : OracleOk o) (f b : Int) (hf : f ∈ apiSizes s.fs),
+        L = bwLimit s 1000 → (∃ k ∈ (SilkBw.runBw SilkBw.bwInit evs).2, o.silkBandwidth = SilkBw.bwOfKHz k) →
+        (getBandwidth (stepNormal s o f b).2.toc : Int) ≤ bwLimit s (getMode (stepNormal s o f b).2.toc)) := by
+  intro evs
+  have hD : (0 : Int) ≤ SilkBw.rateOfBw L := by have := SilkBw.rateOfBw_cases L; omega
+  have hall : ∀ e ∈ evs, SilkBw.BwInOk e.2 ∧ e.2.minFs ≤ e.2.apiFs ∧ e.2.desired ≤ SilkBw.rateOfBw L ∧
+      (e.2.minFs = 8000 ∨ e.2.maxFs ≤ SilkBw.rateOfBw L) := by
+    intro e he
+    simp only [evs, List.mem_map] at he
+    obtain ⟨c, hc, rfl⟩ := he
+    obtain ⟨hm, hb, hn⟩ := hcalls c hc
+    have := SilkBw.opusSilkIn_ok apiFs c.2.1 c.2.2.1 c.2.2.2.1 c.2.2.2.2.1 c.2.2.2.2.2.1 c.2.2.2.2.2.2 L hapi hm hb hn _ rfl
+    exact ⟨this.1, this.2.1, this.2.2.1, this.2.2.2.1⟩
+  have hrun := SilkBw.runBw_spec (SilkBw.rateOfBw L) hD evs SilkBw.bwInit
+    ⟨Or.inl rfl, Or.inl rfl, Or.inr (Or.inl rfl), by decide⟩ (by simp only [SilkBw.bwInit]; omega) hall
+  have hk : ∀ k ∈ (SilkBw.runBw SilkBw.bwInit evs).2, (k = 8 ∨ k = 12 ∨ k = 16) ∧ SilkBw.bwOfKHz k ≤ L ∧
+      1101 ≤ SilkBw.bwOfKHz k ∧ SilkBw.bwOfKHz k ≤ 1103 := by
+    intro k hk
+    obtain ⟨h8, hle⟩ := hrun.2.2.1 k hk
+    exact ⟨h8, SilkBw.bwOfKHz_le h8 hL hle⟩
+  refine ⟨hk, ?_⟩
+  intro s hs o ho f b hf hLs ⟨k, hkm, hko⟩
+  apply stepNormal_bw_le' hs ho b hf
+  intro _
+  rw [hko, ← hLs]; exact (hk k hkm).2.1
+
 /-- **lowdelay_celt_only**.  With OPUS_APPLICATION_RESTRICTED_LOWDELAY every normally coded
     packet uses the MDCT layer alone.  (`DInv.lowdelay`, part of the invariant of `ctl_inv`, says no
     SILK/hybrid frame can precede: the application can only be changed before the first frame.) -/
@@ -474,6 +579,18 @@ example : getNbChannels (stepNormal exAfterStereo { exOracle with autoMode := 10
           getNbChannels (stepNormal (stepNormal exAfterStereo { exOracle with autoMode := 1000 } 960 1276).1
                             { exOracle with autoMode := 1000 } 960 1276).2.toc = 1 := by decide +kernel
 example : SilkBwContract exEnc.toDSt exOracle 960 1276 := by unfold SilkBwContract; decide +kernel
+/-- SILK's rate over a history: init, a wideband request (→ 16 kHz at once), a narrowband request that
+    is allowed but not yet taken (16 kHz, transition started), 128 frames later `switchReady`, then
+    with `opusCanSwitch` one step down to 12 kHz; a maximum of 8 kHz is obeyed immediately. -/
+example :
+    let i16 := SilkBw.opusSilkIn 48000 1000 1103 50 1276 true false
+    let i8 := SilkBw.opusSilkIn 48000 1000 1101 50 1276 true false
+    let i8c := SilkBw.opusSilkIn 48000 1000 1101 50 1276 true true
+    let iLow := SilkBw.opusSilkIn 48000 1000 1103 50 10 false false
+    (SilkBw.runBw SilkBw.bwInit [(.frames 0, i16), (.frames 1, i8), (.frames 128, i8), (.frames 0, i8c), (.frames 1, iLow)]).2 =
+      [16, 16, 16, 12, 8] ∧
+    (SilkBw.controlBw (SilkBw.lpSteps 128 (SilkBw.afterCall (SilkBw.controlBw (SilkBw.afterCall (SilkBw.controlBw SilkBw.bwInit i16)) i8))) i8).ready = true := by
+  decide +kernel
 example : MsEncArgsLegal 48000 3 2 1 [0, 1, 2] 2049 := by unfold MsEncArgsLegal; decide +kernel
 example : surroundLegalB 6 1 = true ∧ surroundLegalB 9 1 = false ∧ surroundLegalB 11 2 = true ∧ surroundLegalB 5 2 = false ∧
     surroundLayout 6 1 = .ok (4, 2, [0, 4, 1, 2, 3, 5]) ∧ projLegalB 11 = true ∧ projLegalB 5 = false := by decide +kernel
